@@ -638,9 +638,15 @@ def enum_parameter_values(ctx, S, q, rp):
             if not good:
                 real = rp.ask("operand_params %s %d" % (kind, v))
                 got = [x.split("(")[0] for x in (real.get("parsed") or [])] if isinstance(real.get("parsed"), list) else real.get("parsed")
-                if got == exp:
+                # the words fed after the enumerant are 11, 12, 13, ...: every one-word parameter must carry the next of them
+                dbg = real.get("parsed_debug") or []
+                vals = [int(m_.group(1)) if m_ else None for m_ in (re.search(r"\((\d+)\)$", d_) for d_ in dbg)]
+                carried = ("LiteralString" in exp) or len(vals) != len(exp) or all(v_ is None or v_ == 11 + i_ for i_, v_ in enumerate(vals))
+                if got == exp and carried:
                     ctx.ob("enum-args/%s/%s/native" % (kind, nms[0]), None, "model-only deviation; the compiled crate delivers %s" % (got,))
                     continue
+                if got == exp:
+                    real = dict(real, parsed=dbg)
                 nbad += 1
                 if nbad <= 3:
                     ctx.violation("parser/enumerant-parameters/%s/%s" % (kind, nms[0]), "%s::%s: parameter parser delivers %s, the grammar lists %s" % (
